@@ -21,6 +21,18 @@ CHECKS = {
         "note": "only 'not more than the left-to-right semantics allows before output k' is demanded; divergence is observed through markers/ticks/bytes consumed, never through wall-clock; trusts jqref's evaluation order",
         "technique": "runtime monitoring: effect-trace monitor with inert and armed marker natives, checked against a reference trace",
     },
+    "C11": {
+        "text": "Held on the executions observed: the 17 obligations E01-E17 (every defining equation of the manual for limit/skip/first/last/nth/isempty/any/all/add/range/repeat/recurse/../while/until/select/empty/error/reduce/foreach) instantiated with generated finite streams containing errors and multiplicities, counts around 0 and the stream length and beyond 2^63, numeric/string/array range bounds, 0/1/2-output updates and variable/array/object patterns; both sides evaluated by the real interpreter on the same input and compared as streams with the position and payload of the first error.",
+        "design_ref": "DESIGN.md §4 C11, Appendix D.1",
+        "note": "both sides of an equation run on the same binary (a defect common to both sides is invisible; C01 covers the core constructs against an independent reference); infinite generators compared under limit",
+        "technique": "runtime monitoring: metamorphic equation monitor over generated stream arguments",
+    },
+    "C12": {
+        "text": "Held on the executions observed: the 29 obligations K01-K29 (documented equations and invariants of sort/group/unique/min/max, keys/entries, indices/index/contains/has/in, flatten/transpose/combinations/bsearch, walk/del/delpaths/paths/pick, map/map_values/join/split, trimstr/startswith/endswith, tonumber/toboolean/abs/floor/round/ceil, type/is*/selectors, reverse/trim/utf8bytelength/tobytes) on generated arrays/objects with duplicates, ties, mixed types, empties, non-string keys and every number representation; equations by the same binary, relational invariants (stability, maximal runs, extremal element, completeness of indices, insertion point) recomputed in Python with the manual's order. Names of the current tree's standard library without any obligation are listed in the evidence.",
+        "design_ref": "DESIGN.md §4 C12, Appendix D.2",
+        "note": "judged on documented domains only; trusts vlib.values' order; the manual's verify/flattens definitions are copied into the programs",
+        "technique": "runtime monitoring: metamorphic / invariant monitor over the documented equations of the collection built-ins",
+    },
     "C08": {
         "text": "Held on the executions observed: whole comparison matrices over pools of typed values (every number representation of equal values, representation boundaries, text/byte strings, objects in different insertion orders) computed by the real interpreter, compared with the manual's order and checked model-free for trichotomy, antisymmetry and transitivity; sort/unique/group_by/min/max/bsearch/array-minus checked against the same order; model-equal values substituted for each other in 20 lookup/dedup contexts. Bounded by the pools; no proof.",
         "design_ref": "DESIGN.md §4 C08",
